@@ -123,13 +123,31 @@ def without(x, drop, path=()):
     return x
 
 
-def valid_without_nulls(orc, w, dname, names):
+def present(v, path):
+    for k in path:
+        if isinstance(v, dict) and k in v:
+            v = v[k]
+        elif isinstance(v, list) and isinstance(k, int) and k < len(v):
+            v = v[k]
+        else:
+            return False
+    return True
+
+
+def valid_without_nulls(orc, w, dname, names, v=None):
     """Is w valid once nulls written for Box<Option<T>> members are removed? The members are known by wire name only,
     and the same name may elsewhere be a required nullable member whose null must stay: all of them are removed first,
     then up to two are put back."""
     pos = list(null_positions(w, names))
-    if not pos or len(pos) > 14:
+    if v is not None:
+        pos = [p for p in pos if not present(v, p)]   # only nulls the round trip wrote, not the instance's own
+    if not pos:
         return False
+    if len(pos) > 14:
+        try:
+            return orc.valid(without(w, set(pos)), dname)
+        except Exception:
+            return False
     keep_sets = [()] + [(p,) for p in pos] + [(p, q) for i, p in enumerate(pos) for q in pos[i + 1:]]
     for keep in keep_sets:
         try:
@@ -189,7 +207,21 @@ def run(tier, seed, replay=None):
             errs = [e.message[:120] for e in all_errs[:3]]
             # mechanism of KF-C03-2: every leaf error is a null under a member emitted as Box<Option<T>>
             boxed = common.boxed_option_fields(fr.results[pr["case"]])
-            cause = "boxed_option_null" if boxed and valid_without_nulls(orc, w, meta["def"], boxed) else None
+            cause = "boxed_option_null" if boxed and valid_without_nulls(orc, w, meta["def"], boxed, v) else None
+            if cause is None:
+                # KF-C03-3: the invalid part lies inside schema defaults the round trip added, whose own absent members
+                # were filled with Rust's Default ([] under minItems 1, "" under minLength 1, ...)
+                adds = list(added_members(v, w))
+                dflts = [a for a in defaults_in(meta["doc"]) if isinstance(a, (dict, list)) and a]
+                def rust_filled(x):
+                    return any(type(a) is type(x) and contained(a, x) is None and
+                               all(y in RUST_ZERO for _, y in added_members(a, x)) for a in dflts)
+                try:
+                    if adds and all(rust_filled(x) for _, x in adds) and \
+                            orc.valid(without(w, {p_ for p_, _ in adds}), meta["def"]):
+                        cause = "nested_declared_default_replaced_by_rust_default"
+                except Exception:
+                    pass
             rep.violation("roundtrip_invalid", common.site_of(errs[0] if errs else "?"),
                           dict(base, w=out["w"], errors=errs, cause=cause), cause=cause, **kw)
             continue
